@@ -423,6 +423,14 @@ class World:
         s.pre = pres
         s.rejected = rej
         trk.on_out(s.out_frames)
+        # a local stream error whose RST_STREAM never reached the output (a GOAWAY received later in the same
+        # call discards pending output) still closed the stream: follow the library's own report of it
+        for ev in s.events or ():
+            if ev['t'] == 'StreamReset' and ev.get('remote_reset') is False:
+                st = trk.get(ev['stream_id'])
+                if st is not None and st.state != 'closed':
+                    trk._close(st, 'rst_sent')
+                    trk.local_resets[st.sid] = trk.close_counter
 
     def _flush(self, ep, n):
         e = self.eps[ep]
